@@ -280,6 +280,14 @@ func ScribbleMessage(m *nas.Message) {
 				for k := 0; k < bb.Len(); k++ {
 					bb.Index(k).SetUint(uint64(^uint8(bb.Index(k).Uint())))
 				}
+				// the owner of a message may also append to its elements: what lies between len and cap of an element
+				// belongs to the message and to nothing else
+				if bb.Kind() == reflect.Slice && bb.Cap() > bb.Len() {
+					ext := bb.Slice(0, bb.Cap())
+					for k := bb.Len(); k < ext.Len(); k++ {
+						ext.Index(k).SetUint(uint64(^uint8(ext.Index(k).Uint())))
+					}
+				}
 			}
 		}
 	}
